@@ -31,6 +31,7 @@ class S(vlib.Spec):
         14: "FastRead panicked on an encoding with one corrupted type byte (model: gopkg Skip indexed typeToSize with a negative type)",
         15: "FastRead panicked / the process died on a truncated encoding; the model does not say why",
         16: "FastRead panicked / the process died on a corrupted or extended encoding; the model does not say why",
+        17: "the driver process died (Go runtime: out of memory) in FastRead where the model answers with an error: make(T, size) with a size taken from the input",
     }
     modelled = ("generator/fastgo/gen_blength.go (genBLength, genBLengthField/Any/List/Map/Struct), gen_fastwrite.go (genFastAppend, "
                 "genFastAppendField/Any/List/Map/Struct), gen_fastread.go (genFastRead switch on fid<<8|type, required bit set, "
@@ -75,6 +76,8 @@ class S(vlib.Spec):
             return "C10-fastread-panic-skip-overrun"
         if code in (13, 14):
             return "C10-fastread-panic-skip-negative-type"
+        if code == 17:
+            return "C10-fastread-out-of-memory-hostile-size"
         names = {2: "blength-not-exact", 3: "fast-bytes-do-not-decode-to-value", 4: "std-read-of-fast-bytes",
                  5: "fastread-differs-from-std-read", 10: "truncated-encoding-accepted", 11: "fastwrite-differs-from-fastappend",
                  12: "fast-writer-panic", 15: "fastread-panic-truncated-unexplained", 16: "fastread-panic-unexplained"}
